@@ -49,7 +49,9 @@ def main() -> int:
                 tmp.unlink()
             except Exception as e:  # a crash of the simulator itself is reported, not hidden
                 tb = traceback.extract_tb(e.__traceback__)
-                origin = "repo" if tb and tb[-1].filename.startswith("/repo/") else "harness"
+                import os
+                repo = os.environ.get("HIVE_REPO", "/repo").rstrip("/") + "/"
+                origin = "repo" if tb and tb[-1].filename.startswith(repo) else "harness"
                 meta["failed"].append({"id": item["id"], "error": repr(e), "origin": origin,
                                        "trace": traceback.format_exc()[-2000:]})
                 if tmp.exists():
